@@ -21,7 +21,7 @@ ASSUMPTIONS = ["token lists and state dictionaries of different partitions need 
                "the caller's dictionary as it found it (the caller repeats the call with repaired input)"]
 REQUIRED_FLAGS = ["signature_change", "empty_bar", "note_cut_by_bar_line", "side_track_shorter", "later_chunk_has_note",
                   "all_partitions_explored", "two_track_piece_with_side_notes_explored", "running_values_off", "unfused_flags", "requantise_on", "requantise_off",
-                  "general_pause_of_many_bars", "rejected_call_explored"]
+                  "general_pause_of_many_bars", "rejected_call_explored", "five_or_more_tracks"]
 
 SIG = {"44": (4, 4), "34": (3, 4), "38": (3, 8), "68": (6, 8), "58": (5, 8),      # a 36-tick note fills a 3/8 bar exactly
        "78": (7, 8), "98": (9, 8)}
@@ -57,10 +57,28 @@ LONG_PLANS = [["44"] * 8, ["34", "34", "38", "38", "44", "58", "68", "34"]]
 
 def units(ctx):
     return [(i, j) for i in range(len(plan_list(ctx["tier"]))) for j in range(4)] + [("long", k) for k in range(len(LONG_PLANS))] + \
-           [("pause", m, K) for m in ("44", "38", "58", "78", "98", "68") for K in (7, 8, 16, 24)]
+           [("pause", m, K) for m in ("44", "38", "58", "78", "98", "68") for K in (7, 8, 16, 24)] + [("manytracks", 0)]
 
 
 def gen_cases(unit, ctx):
+    if unit[0] == "manytracks":
+        # seven tracks: track numbers 4 and 6 are also note values, so that the last value of one call can equal the track
+        # of the next call's first note (and the other way round) - every such pairing over three bars
+        p = ctx["p"]
+        plan = ["44", "44", "44"]
+        for x in (4, 6, 8):
+            for other in (0, 1, 5):
+                def tracks_of(placed):
+                    t = [[] for _ in range(9)]
+                    for (trk, o, d) in placed:
+                        t[trk].append([o, d, p + trk % 2, 0, 10 if trk % 2 else 30])
+                    return t
+                for placed in ([(other, 48, x), (x, 96, 12), (0, 192, 12)],       # value x, then a note on track x
+                               [(x, 48, 12), (other, 96, x), (0, 192, 12)],       # track x, then a note of value x
+                               [(x, 48, x), (other, 96, 12), (x, 192, x)]):
+                    t = tracks_of(placed)
+                    yield {"plan": plan, "notes": t[0], "side": t[1], "more": t[2:], "q": False}
+        return
     if unit[0] == "pause":
         # scale in time: three bars of music, a general pause of K bars that begins in the middle of a bar and ends with
         # an upbeat (or on a bar line), two more bars; calls may end at 7 positions around the pause (all 128 groupings)
@@ -145,6 +163,10 @@ def check_case(case, ctx):
     seqs = [lib.seq_abs(notes, events, st[-1])]
     if side is not None:
         seqs.append(lib.seq_abs(side, [], None))
+    for extra in case.get("more", []):
+        seqs.append(lib.seq_abs(extra, [], None))
+    if len(seqs) >= 5:
+        R.flags.append("five_or_more_tracks")
     nt = len(seqs)
     bars = Sequence.sequences_split_bars(seqs, 0, q)
     n = len(bars[0])
